@@ -18,6 +18,7 @@ import traceback
 HERE = os.path.dirname(os.path.dirname(os.path.abspath(__file__)))
 sys.path.insert(0, HERE)
 sys.setrecursionlimit(20000)
+sys.set_int_max_str_digits(0)
 
 try:
     import ctypes
@@ -71,7 +72,7 @@ def load_findings(pid):
 
 
 def sanitize(s):
-    return re.sub(r"[^A-Za-z0-9_.=-]+", "_", s)[:150]
+    return re.sub(r"[^A-Za-z0-9_.=-]", lambda m: "_" if m.group(0) in "/ :" else "~%02x" % ord(m.group(0)), s)[:180]
 
 
 def write_replay(pid, tid, obligation, payload):
